@@ -24,6 +24,11 @@ fn devices() -> Vec<String> {
         "/mnt/mdt0\r\n.snap".into(),
         "a\rb\tc".into(),
         "/mnt/lustre/😀/mdt0".into(),
+        " /mnt/mdt0".into(),
+        "/mnt/mdt0\n".into(),
+        "\t/x ".into(),
+        " ".into(),
+        "".into(),
         "/mnt/\u{10000}0".into(),
     ]
 }
@@ -221,7 +226,10 @@ pub fn run(ctx: &Ctx) -> i32 {
     let devs = devices();
     let es = exprs();
     let maxlen = ctx.tier.pick(4, 5);
-    let nops = devs.len() + 1;
+    // operation histories range over the first 12 paths (every path takes part in the pairwise
+    // comparison below)
+    let seq_devs = devs.len().min(12);
+    let nops = seq_devs + 1;
     let mut acc = Acc::new();
     for (ei, (e, threads)) in es.iter().enumerate() {
         let base = match baseline(e, *threads, &devs) {
@@ -265,7 +273,7 @@ pub fn run(ctx: &Ctx) -> i32 {
         for _ in 0..len {
             let o = (k % nops as u64) as usize;
             k /= nops as u64;
-            ops.push(if o == devs.len() { Op::IoMap } else { Op::Scheme(o) });
+            ops.push(if o == seq_devs { Op::IoMap } else { Op::Scheme(o) });
         }
         if let Some(base) = &shared.0[ei] {
             check_seq(ei, &es[ei].0, es[ei].1, &devs, base, &ops, acc);
@@ -344,7 +352,13 @@ pub fn run(ctx: &Ctx) -> i32 {
         let step: u64 = ctx.tier.pick(1, 1);
         let sweep = par_cases(0x110000 / step, |i, acc| {
             let Some(c) = char::from_u32((i * step) as u32) else { return };
-            let dev = format!("/dev/a{c}b");
+            // inside the path, and (every 3rd scalar, all white space) at its start and end
+            let dev = match i % 3 {
+                _ if c.is_whitespace() && i % 2 == 0 => format!("{c}/dev/a{c}"),
+                1 => format!("/dev/a{c}"),
+                2 => format!("{c}/dev/a"),
+                _ => format!("/dev/a{c}b"),
+            };
             let Ok(h) = fresh(&tree, None) else { return };
             acc.states += 1;
             acc.transitions += 1;
@@ -417,7 +431,7 @@ pub fn run(ctx: &Ctx) -> i32 {
             level: "model_checking",
             exhaustive: true,
             rule: "state = (compiled expression, history of render operations); explicit-state exploration of every operation sequence (the compiled value is rebuilt and the history replayed, as it cannot be copied); each result is compared with the rendering of a fresh compile for the same path; renderings for different paths are read back and must differ in exactly one leaf, the device string literal, decoding to the path; distinct = (expression, device) pairs rendered".into(),
-            bound: format!("{} expressions (five of them carrying placeholder-like user text) x every sequence of length 1..{maxlen} over {} operations (scheme(d) for {} paths, io_map())", es.len(), nops, devs.len()),
+            bound: format!("{} expressions (five of them carrying placeholder-like user text) x every sequence of length 1..{maxlen} over {} operations (scheme(d) for the first {} of {} paths, io_map()); every pair of paths compared on every expression", es.len(), nops, seq_devs, devs.len()),
             assumptions: vec!["the operation histories use expressions without time tests; two expressions with time tests are rendered twice 1.1 s apart (the embedded second belongs to the compile call, C15)".into(), "every (expression, path) rendering is repeated with a logger listening at Trace level".into()],
             extra: {
                 let mut m = serde_json::Map::new();
